@@ -4,7 +4,7 @@
    is loaded with (default, or p again), c = a component of the package, c' = the component as stored. *)
 From Coq Require Import String Ascii List Bool ZArith Arith.
 Import ListNotations.
-Require Import V.Lib.PyStr V.Lib.JTree V.Conf.Model V.Conf.Proofs V.Reload.Model V.Reload.Proofs V.Reload.Obs V.Reload.Idem V.Reload.IdemDoc.
+Require Import V.Lib.PyStr V.Lib.JTree V.Conf.Model V.Conf.Proofs V.Reload.Model V.Reload.Proofs V.Reload.Obs V.Reload.Idem V.Reload.IdemDoc V.Reload.IdemAll.
 Open Scope string_scope.
 
 (* Variables: every variable of every component has, in the reloaded document, the value the package gives it on p
@@ -67,7 +67,7 @@ Theorem C07_references : forall dflt d p q sk c c' f bg bs X Y r r',
   get_path ["references"] c' = get_path ["references"] f /\ val ["references"] r' = val ["references"] r.
 Proof.
   intros dflt d p q sk c c' f bg bs X Y r r' Hi Hs Hc Hf Hbg Hbs HXY Hov Hnd Hr Hr'. split.
-  - eapply stored_option; eauto; discriminate.
+  - eapply stored_option; eauto. repeat split; try discriminate. left; discriminate.
   - eapply (reload_option dflt d p q sk c c' f bg bs X Y r r' "references" []); eauto.
     repeat split; try discriminate. left. discriminate.
 Qed.
@@ -91,8 +91,11 @@ Print Assumptions C07_convert_idempotent.
 (* ------------------------------------------------------------------ whole trees (coq/Reload/Obs.v, Idem.v)
    [jeq a b]: a and b are the same nested mapping - the same observation (nothing / leaf value / dictionary) at every
    path, i.e. equal up to the order of keys inside dictionaries.  [clean d p sk c]: the blueprints and the platform
-   override that are folded into component c hold options only - no `stage`, `override`, `$import`,
-   workflowAttributes.repeatInterval / isRepeat (the last two are necessary: C07_repeat_refuted, finding F7d). *)
+   override that are folded into component c hold options only - no `stage`, `override`, `$import`.  A repeat interval
+   given by a blueprint or by the platform override is allowed (finding F7d, repaired: instance() derives isRepeat from
+   the layered repeatInterval it stores); [clean_repeat d p sk c] - no side layer gives repeatInterval / isRepeat - is
+   asked only where the reloaded raw configuration is compared with the PACKAGE's raw isRepeat, which the package
+   derives from the component's own repeatInterval alone (C07_config_tree; necessary: C07_config_tree_repeat_refuted). *)
 
 (* override_object, whenever it does not raise, acts path by path *)
 Theorem C07_override_pointwise : forall pi a b r,
@@ -110,7 +113,7 @@ Proof.
   intros d p sk c c' q Hi Hs Hc Hcl Hq.
   destruct (fold_override (Some (JDict [])) (store_layers d p sk c)) as [f|] eqn:Hf.
   - exact (stored_vars_ok_clean d p sk c c' f Hi Hs Hc Hf Hcl q Hq).
-  - unfold store_comp_raw in Hc. rewrite Hi, Hs, Hf in Hc. discriminate.
+  - unfold store_comp_raw, store_comp_with in Hc. rewrite Hi, Hs, Hf in Hc. discriminate.
 Qed.
 Print Assumptions C07_stored_variables_any.
 
@@ -121,7 +124,7 @@ Print Assumptions C07_stored_variables_any.
    hypothesis on the variables.) *)
 Theorem C07_config_tree : forall dflt d p q sk c c' bg bs X Y vl vl' r r',
   is_import c = false -> comp_stage_key c = Some sk ->
-  store_comp_raw d p c = Some c' -> clean d p sk c ->
+  store_comp_raw d p c = Some c' -> clean d p sk c -> clean_repeat d p sk c ->
   fl_bp_global d p = Some bg -> fl_bp_stage d p sk = Some bs ->
   ((X = bg /\ Y = bs) \/ (X = JDict [] /\ Y = JDict [])) ->
   q = DEF \/ q = p ->
@@ -131,6 +134,46 @@ Theorem C07_config_tree : forall dflt d p q sk c c' bg bs X Y vl vl' r r',
   jeq r' r.
 Proof. exact reload_merged_jeq. Qed.
 Print Assumptions C07_config_tree.
+
+(* ... and whatever layer gives the repeat interval (no [clean_repeat]): after the derivation of isRepeat from the
+   layered repeatInterval, which every resolution of a component performs on the layered configuration (inject_all;
+   [comp_pre] is that derivation), the two layered configurations are the same tree, isRepeat included; in
+   particular they are the same tree at every path other than workflowAttributes.isRepeat. *)
+Theorem C07_config_tree_derived : forall dflt d p q sk c c' bg bs X Y vl vl' r r',
+  is_import c = false -> comp_stage_key c = Some sk ->
+  store_comp_raw d p c = Some c' -> clean d p sk c ->
+  fl_bp_global d p = Some bg -> fl_bp_stage d p sk = Some bs ->
+  ((X = bg /\ Y = bs) \/ (X = JDict [] /\ Y = JDict [])) ->
+  q = DEF \/ q = p ->
+  alist_eq (layer_vars vl') (layer_vars vl) ->
+  merged_of (opt_layers dflt d p sk c) vl = Some r ->
+  merged_of ([builtin dflt; bg; bs; X; Y; comp_layer c'] ++ comp_override q c') vl' = Some r' ->
+  jeq (comp_pre r') (comp_pre r) /\ (forall pth, irp pth = false -> obs pth r' = obs pth r).
+Proof.
+  intros dflt d p q sk c c' bg bs X Y vl vl' r r' Hi Hs Hc Hcl Hbg Hbs HXY Hq Hv Hr Hr'.
+  pose proof (reload_merged_derived_jeq dflt d p q sk c c' bg bs X Y vl vl' r r' Hi Hs Hc Hcl Hbg Hbs HXY Hq Hv Hr Hr') as J.
+  split; [exact J|]. intros pth Hir. rewrite <- (obs_comp_pre pth r' Hir), <- (obs_comp_pre pth r Hir). apply J.
+Qed.
+Print Assumptions C07_config_tree_derived.
+
+(* The stored component is a fixed point of the derivation FlowIRConcrete.__init__ applies to every component of a
+   document it loads: the stored isRepeat is the one of the stored (layered) repeatInterval (finding F7d, repaired) *)
+Theorem C07_stored_repeat_derived : forall d p sk c c' f,
+  is_import c = false -> comp_stage_key c = Some sk ->
+  store_comp_raw d p c = Some c' ->
+  fold_override (Some (JDict [])) (store_layers d p sk c) = Some f ->
+  comp_pre c' = c' /\
+  get_path RI c' = get_path RI f /\
+  (forall x, get_path RI f = Some x -> get_path IR c' = Some (JBool (negb (none_or_zero x)))).
+Proof.
+  intros d p sk c c' f Hi Hs Hc Hf.
+  assert (G : forall k2, get_path [WA; k2] c' = get_path [WA; k2] (comp_pre f)).
+  { intros k2. apply (stored_path d p c sk c' f WA [k2] Hi Hs Hc Hf); discriminate. }
+  split; [exact (comp_pre_stored d p sk c c' f Hi Hs Hc Hf)|]. split.
+  - unfold RI. rewrite G. apply get_path_comp_pre. right. exists "repeatInterval", []. split; [reflexivity|discriminate].
+  - intros x Hx. unfold IR. rewrite G, (comp_pre_some f x Hx). apply get_set_path_same.
+Qed.
+Print Assumptions C07_stored_repeat_derived.
 
 (* Loading and storing again does not change the stored component: d2 is any document whose default platform holds the
    merged blueprints of d and whose platform p holds them again (p = default) or nothing (the flattened document);
@@ -170,6 +213,34 @@ Theorem C07_environments_idempotent : forall envs p,
 Proof. exact reflatten_envs. Qed.
 Print Assumptions C07_environments_idempotent.
 
+(* The stage blueprints and the list of stage keys; [all_clean d p]: every component of d that is stored with its layers
+   folded in has clean side layers on p *)
+Theorem C07_stage_blueprint_idempotent : forall d envs u p fd sk bs bs2,
+  flatten_raw d envs u p = Some fd ->
+  existsb (String.eqb sk) (stage_keys (d_components d)) = true -> is_dict (bp_stage d DEF sk) ->
+  fl_bp_stage d p sk = Some bs -> fl_bp_stage (f_doc fd) p sk = Some bs2 -> jeq bs2 bs.
+Proof. exact reflatten_bp_stage. Qed.
+Print Assumptions C07_stage_blueprint_idempotent.
+
+Theorem C07_stage_keys_idempotent : forall d envs u p fd,
+  flatten_raw d envs u p = Some fd -> all_clean d p ->
+  stage_keys (d_components (f_doc fd)) = stage_keys (d_components d).
+Proof. exact reflatten_stage_keys. Qed.
+Print Assumptions C07_stage_keys_idempotent.
+
+(* Loading and storing again does not change the stored description - ONE statement about the whole flattened document
+   (structural part): if the document that instance() stored is flattened again (selected platform p again, user variables
+   patched in again) the result is the same stored description [fdoc_same]: the same global and stage blueprints (as
+   trees), the same stage keys, the same global variables, the same stage variables (as finite maps), pairwise the same
+   components (as trees) and the same environments. *)
+Theorem C07_document_idempotent : forall d envs u p fd fd2,
+  flatten_raw d envs u p = Some fd -> all_clean d p ->
+  is_dict (bp_global d DEF) -> (forall sk, is_dict (bp_stage d DEF sk)) ->
+  flatten_raw (f_doc fd) (JDict [(DEF, JDict (f_envs fd))]) u p = Some fd2 ->
+  fdoc_same (stage_keys (d_components d)) fd2 fd.
+Proof. exact reflatten_whole. Qed.
+Print Assumptions C07_document_idempotent.
+
 (* The value part: text that holds no reference (no '%': what interpolation leaves behind when every reference was
    resolved) is a fixed point of the tolerant interpolation of instance(), in every context *)
 Theorem C07_interpolation_closed : forall ctx s, no_pct s ->
@@ -198,6 +269,12 @@ Definition ex_user : jv := JDict [("global", JDict [("s", JStr "user")])].
 
 Definition ex_flat := flatten ex_doc ex_envs ex_user "p".
 
+Definition ex_rep_doc : doc :=
+  {| d_blueprint := JDict [("default", JDict [("global", JDict [(WA, JDict [("repeatInterval", JInt 5)])])])];
+     d_variables := JDict [("default", JDict [("global", JDict [("a", JStr "A")])])];
+     d_components := [JDict [("name", JStr "c"); ("stage", JInt 0);
+                             ("command", JDict [("executable", JStr "echo"); ("arguments", JStr "hi")])]] |}.
+
 Example C07_nonvacuous :
   (exists fd, ex_flat = Ok fd /\
      get_path ["default"; "global"; "g"] (d_variables (f_doc fd)) = Some (JStr "pg") /\
@@ -215,14 +292,30 @@ Example C07_nonvacuous :
   uniq (envs_of ex_envs "p") /\
   Forall (fun l => nodict (get_path ["command"; "arguments"] l)) (store_layers ex_doc "p" "0" (hd JNull (d_components ex_doc))) /\
   clean ex_doc "p" "0" (hd JNull (d_components ex_doc)) /\
-  is_dict (bp_global ex_doc DEF) /\ no_pct "echo-p".
+  clean_repeat ex_doc "p" "0" (hd JNull (d_components ex_doc)) /\
+  (* a repeat interval given by a blueprint: clean, not clean_repeat; the stored component holds the derived isRepeat *)
+  (clean ex_rep_doc "p" "0" (hd JNull (d_components ex_rep_doc)) /\
+   exists c', store_comp_raw ex_rep_doc "p" (hd JNull (d_components ex_rep_doc)) = Some c' /\
+              get_path RI c' = Some (JInt 5) /\ get_path IR c' = Some (JBool true) /\
+              store_comp_raw ex_rep_doc "p" c' = Some c') /\
+  is_dict (bp_global ex_doc DEF) /\ no_pct "echo-p" /\
+  (* the hypotheses of C07_document_idempotent: the flattened document can be flattened again *)
+  all_clean ex_doc "p" /\ (forall sk, is_dict (bp_stage ex_doc DEF sk)) /\
+  (exists fd fd2, flatten_raw ex_doc ex_envs ex_user "p" = Some fd /\
+                  flatten_raw (f_doc fd) (JDict [(DEF, JDict (f_envs fd))]) ex_user "p" = Some fd2).
 Proof.
-  split; [|split; [|split; [|split; [|split; [|split]]]]].
+  split; [|split; [|split; [|split; [|split; [|split; [|split; [|split; [|split; [|split; [|split]]]]]]]]]].
   - eexists. split; [vm_compute; reflexivity|]. vm_compute. repeat split; reflexivity.
   - vm_compute. reflexivity.
   - unfold uniq. vm_compute. repeat constructor. intros [].
   - vm_compute. repeat constructor.
   - unfold clean. vm_compute. repeat constructor.
+  - unfold clean_repeat. vm_compute. repeat constructor.
+  - split; [unfold clean; vm_compute; repeat constructor|].
+    eexists. split; [vm_compute; reflexivity|]. vm_compute. repeat split; reflexivity.
   - eexists. vm_compute. reflexivity.
   - reflexivity.
+  - intros c sk [<-|[]] _ Hs. vm_compute in Hs. injection Hs as <-. unfold clean. vm_compute. repeat constructor.
+  - intros sk. eexists. reflexivity.
+  - do 2 eexists. split; vm_compute; reflexivity.
 Qed.
